@@ -375,6 +375,9 @@ impl Family for PlanFam {
     fn label_states(arity: usize, kind: usize) -> u8 {
         states(menu(arity)[kind])
     }
+    fn same(a: &LogicalPlan, b: &LogicalPlan) -> bool {
+        a == b
+    }
     fn short(node: &LogicalPlan) -> String {
         format!("{}", node.display_indent()).replace('\n', " | ")
     }
@@ -454,6 +457,9 @@ impl Family for PlanSubqFam {
     }
     fn label_states(arity: usize, kind: usize) -> u8 {
         states(menu_subq(arity)[kind].0)
+    }
+    fn same(a: &LogicalPlan, b: &LogicalPlan) -> bool {
+        a == b
     }
     fn short(node: &LogicalPlan) -> String {
         format!("{}", node.display_indent()).replace('\n', " | ")
